@@ -70,9 +70,9 @@ Definition model_agrees_in (ctx : nat * table) (c : case) : bool :=
   let (ncols, t) := case_ctx ctx c in model_agrees1 ncols t (case_q c) (obs_of ncols t (case_q c) (case_o c)).
 Definition spec_ok_in (ctx : nat * table) (c : case) : bool :=
   let (ncols, t) := case_ctx ctx c in spec_ok1 ncols t (case_q c) (obs_of ncols t (case_q c) (case_o c)).
-(* the recorded finding class of the case (Model/SortImpl.v known_class_q); 0 = none *)
+(* the recorded finding class of the case (Model/SortImpl.v known_class_case); 0 = none *)
 Definition known_class_in (ctx : nat * table) (c : case) : Z :=
-  known_class_q (fst (case_ctx ctx c)) (case_q c).
+  known_class_case (fst (case_ctx ctx c)) (case_q c) (snd (case_ctx ctx c)).
 
 (* a case standing alone (Same without a table: an empty table of no columns) *)
 Definition model_agrees (c : case) : bool := model_agrees_in (O, []) c.
